@@ -431,7 +431,9 @@ def defexpand_verdicts(group_text, defs):
     e, value = use_of(ext, defs)
     if valid is False and e.content is not None:
         w2 = "(" + DEFX + "/" + ext + "," + e.content + ")"
-        raw = _rmatch(kids, _rtree(P.parse(w2)[0][3], w2), True)
+        # up to sibling order: since the Def-expand comparison became order-insensitive (fix d868f52) the known
+        # class "content equals the UNPLUGGED definition content" is order-insensitive too
+        raw = _rmatch(kids, _rtree(P.parse(w2)[0][3], w2), False)
     return valid, ordered, raw
 
 
